@@ -336,9 +336,29 @@ def judge_heap(case):
                      f"{loaded:.3f} with 3 million unrelated lists alive"})
     return {"nontrivial": True, "outcome": "ok", "violations": viol, "_cpu": (lean, loaded)}
 
-def dispatch(case):
+BUDGET_S = 60       # every case finishes in seconds on the unchanged tree; a backward that has not returned by then is not linear
+
+def _dispatch(case):
     k = case["kind"]
     return judge_cost(case) if k == "cost" else judge_cputime(case) if k == "cputime" else judge_heap(case) if k == "heap" else judge(case)
+
+def dispatch(case):
+    """every case runs under a wall-clock budget: an exponential traversal would otherwise never return (and a check that hangs
+    decides nothing)"""
+    import signal
+    class _Timeout(Exception): pass
+    def on_alarm(signum, frame): raise _Timeout()
+    old = signal.signal(signal.SIGALRM, on_alarm)
+    signal.alarm(BUDGET_S)
+    try:
+        return _dispatch(case)
+    except _Timeout:
+        sys.setprofile(None)
+        import gc; gc.enable()
+        return {"nontrivial": True, "outcome": "timeout", "violations": [{"kind": f"{case.get('shape', case['kind'])}:did-not-finish",
+                "detail": f"the case did not finish within {BUDGET_S} s (it takes seconds when backward is linear in the graph): {case}"}]}
+    finally:
+        signal.alarm(0); signal.signal(signal.SIGALRM, old)
 
 def all_cases(tier):
     sizes = SIZES_Q if tier == "quick" else SIZES_T
